@@ -261,7 +261,7 @@ func firstFatalLine(c *vlib.ChildResult) string {
 	sc.Buffer(make([]byte, 1<<20), 1<<24)
 	for sc.Scan() {
 		ln := sc.Text()
-		if strings.HasPrefix(ln, "fatal error:") || strings.HasPrefix(ln, "panic:") || strings.Contains(ln, "ERROR: AddressSanitizer") || strings.HasPrefix(ln, "runtime: out of memory") {
+		if strings.HasPrefix(ln, "fatal error:") || strings.HasPrefix(ln, "panic:") || strings.Contains(ln, "ERROR: AddressSanitizer") {
 			return ln
 		}
 	}
